@@ -61,7 +61,8 @@ def vars_from_json(l):
 # ----------------------------------------------------------------------------- generators (C20)
 STR_IDS = ["a", "b", "c", "d", "e", "f", "x", "y", "ü", "变量", "x y", "", "0", "1", "7", "-1", "A", "aa", "é1", "a\"q", "Ω", "id_with_a_rather_long_name_0123456789"]
 INT_IDS = [0, 1, 2, 3, 4, 5, 7, 10, -1, -7, 123456789, 2 ** 40]
-BOUNDS = [(0, 1)] * 8 + [(1, 1), (0, 0), (-3, 5), (0, 2), (1, 2), (-1, 0), (-1, 1), (2, 2), (-32768, 32767), (0, 32767), (-5, -2), (3, 9)]
+BOUNDS = [(0, 1)] * 8 + [(1, 1), (0, 0), (-3, 5), (0, 2), (1, 2), (-1, 0), (-1, 1), (2, 2), (-32768, 32767), (0, 32767), (-5, -2), (3, 9),
+          (-2, 3), (-3, 4)]      # the last two: lower + upper = 1 like a boolean's (variables hash by id + lower + upper and compare by id)
 
 def gen_ids(rng, n, dup=0.0, p_int=0.3):
     """n ids (str and int mixed); duplicate-free unless dup>0"""
